@@ -98,8 +98,28 @@ class Layout:
             ver = lambda: (self.rng.choice([" 1.0", " 6.2", " 2.15"]) if self.versioned and self.rng.random() < 0.6 else "")
             lines = ["import qmluic.QtWidgets" + ver()] + ['import "%s"%s' % (self.rel(c["dir"], x), ver()) for x in c["imports"]] + ["%s {" % c["root"], "}"]
             self.files[os.path.join(self.dirs[c["dir"]], name + ".qml")] = "\n".join(lines) + "\n"
+        self.redundant = 0
         for m in self.mains:
-            lines = ["import qmluic.QtWidgets"] + ['import "%s"' % self.rel(m["dir"], x) for x in m["imports"]] + ["QWidget {", "    QVBoxLayout {"]
+            imps = ['import "%s"' % self.rel(m["dir"], x) for x in m["imports"]]
+            # imports that add nothing: the document's own directory (always visible), the same directory twice or in a second spelling, the Qt module twice --
+            # every one of them names a module that exists
+            if self.rng.random() < 0.35:
+                extra = []
+                for _ in range(self.rng.choice([1, 1, 2])):
+                    c = self.rng.random()
+                    if c < 0.35:
+                        extra.append('import "."')
+                    elif c < 0.5:
+                        extra.append('import "../%s"' % os.path.basename(self.dirs[m["dir"]]) if "/" not in self.dirs[m["dir"]] or True else 'import "."')
+                    elif c < 0.8 and imps:
+                        one = self.rng.choice(imps)
+                        extra.append(one if self.rng.random() < 0.5 else one[:-1] + '/"')
+                    else:
+                        extra.append("import qmluic.QtWidgets")
+                pos = self.rng.randrange(len(imps) + 1)
+                imps = imps[:pos] + extra + imps[pos:]
+                self.redundant += len(extra)
+            lines = ["import qmluic.QtWidgets"] + imps + ["QWidget {", "    QVBoxLayout {"]
             for u in m["used"]:
                 base, ok = self.ultimate(u)
                 prop = dict(BASES).get(base)
@@ -190,6 +210,8 @@ def run(ctx):
         rep = {"files": lay.files, "sources": [list(p) for p, _ in runs], "symbolic_links": getattr(lay, "links", [])}
         if getattr(lay, "links", None):
             ctx.dist("layout-with-symlinked-components")
+        if getattr(lay, "redundant", 0):
+            ctx.dist("layout-with-redundant-imports")
         bad = [r for _, r in runs if not isinstance(r, dict) or "visited" not in r]
         if bad:
             ctx.violation("discovery/translation does not terminate normally on this layout: %s" % str(bad[0])[:300], dict(rep, impl_output=str(bad[0])[:1000],
